@@ -54,8 +54,10 @@ theorem WFrec.setFailed {R : Nat} {r : Rec} (h : WFrec R r) (w : World) (f : Nat
 theorem WFrec.setStatic {R : Nat} {r : Rec} (h : WFrec R r) (w : World) (f : Nat) :
     WFrec R (setStatic w f r R) := by
   obtain ⟨h1, h2, h3, h4⟩ := h.updateStamp w f
-  refine ⟨h1, h2, ?_, h4⟩
-  simp [Deps.setStatic]
+  refine ⟨h1, h2, ?_, ?_⟩
+  · simp [Deps.setStatic]
+  · intro hc
+    exact ⟨(h4 hc).1, (h4 hc).2.1, rfl⟩
 
 theorem WFrec.setOverride {R : Nat} {r : Rec} (h : WFrec R r) (w : World) (f : Nat) :
     WFrec R (setOverride w f r R) := by
